@@ -23,7 +23,8 @@ class C18(Check):
     level = "exploration"
     rule = ("(a) every string of length <= n over the 11-character special alphabet as a literal in 5 positions of a "
             "single-module program; (b) every single-module example of the repository; (c) generated single-module programs; "
-            "(d) every opcode name of the table round-tripped through a one-instruction text file.  Each program goes through "
+            "(d) every opcode name of the table round-tripped through a one-instruction text file; (e) every single-module revision pair of 5 programs of "
+            "different lengths, the pipeline running in a directory that still holds the earlier revision's binary or text outputs.  Each program goes through "
             "compile --output-format raw-text -> rename to .transpiled.mmm -> transpile -> execute and is compared with `run` "
             "(stdout, success, and the loaded instruction streams via hook H3).  Non-trivial = the program compiles.")
     assumptions = ["map output canonicalised", "NUL outside the alphabet", "single-module programs only (as the property states)"]
@@ -40,7 +41,10 @@ class C18(Check):
                     yield ("str", t, pos, False)
         from ..lang import gencorpus
         ops = [("op", name, code) for name, code in sorted(opcode_table().items(), key=lambda kv: kv[1])]
-        ls = [("L0-opcode-names", ops),
+        from .c04 import STALE_PROGS
+        single = [i for i, pr in enumerate(STALE_PROGS) if len(pr) == 1]
+        stale = [("stale", a, b, w) for a in single for b in single if a != b for w in ("binary", "text")]
+        ls = [("L0-opcode-names", ops), ("L0b-stale-outputs-of-an-earlier-revision", stale),
               ("L1-strings<=2-all-positions", list(strings(0, 2, POSITIONS))),
               ("L2-examples", ex),
               ("L3-generated-corpus", [("gen", nm) for nm in gencorpus.names(tier) if not nm.startswith("c11")]),
@@ -53,6 +57,8 @@ class C18(Check):
     def describe(self, case):
         if case[0] == "str":
             return {"string": strlit.decode(case[1]), "position": case[2]}
+        if case[0] == "stale":
+            return {"earlier_revision": case[1], "revision": case[2], "leftovers": case[3]}
         return {"kind": case[0], "name": case[1] if case[0] != "ex" else case[2]}
 
     def run_op(self, case):
@@ -88,9 +94,52 @@ class C18(Check):
                              "what": f"instruction {name} (opcode {code}) transpiled to {data!r}, expected like {exp!r}", "detail": detail})
         return {"outcome": "op-ok" if not viol else "op-bad", "viol": viol, "nontrivial": True, "tags": ["op"]}
 
+    def run_stale(self, case):
+        """the pipeline is run in a directory that still holds what an earlier (other) revision left behind: its binary x.mmm
+        (`binary`) or its text form x.transpiled.mmm and the binary made from it (`text`)"""
+        from .c04 import STALE_PROGS
+        _, a, b, what = case
+        A, B = STALE_PROGS[a], STALE_PROGS[b]
+        ref_dir = driver.fresh_dir()
+        driver.write_files(ref_dir, B)
+        ref = driver.run(["run", "x.ms", "-q"], ref_dir)
+        d = driver.fresh_dir()
+        driver.write_files(d, A)
+        # the earlier revision's binary (made directly or through the text form) is what the transpiler finds at its output path
+        if what == "binary":
+            first = driver.run(["compile", "x.ms", "--quick"], d)
+        else:
+            st, first = paths.pipeline_transpile(d, "x.ms")
+        old_binary = open(os.path.join(d, "x.mmm"), "rb").read() if os.path.exists(os.path.join(d, "x.mmm")) else b""
+        driver.write_files(d, B)
+        stage, got = None, None
+        c = driver.run(["compile", "x.ms", "--quick", "--output-format", "raw-text"], d)
+        if c.exit != 0:
+            stage, got = "compile", c
+        else:
+            os.replace(os.path.join(d, "x.mmm"), os.path.join(d, "x.transpiled.mmm"))
+            with open(os.path.join(d, "x.mmm"), "wb") as f:
+                f.write(old_binary)
+            t = driver.run(["transpile", "x.transpiled.mmm"], d)
+            if t.exit != 0:
+                stage, got = "transpile", t
+            else:
+                got = driver.run(["execute", "x.mmm"], d)
+        viol = []
+        if ref.exit != 0 or first.exit != 0:
+            return {"outcome": "stale-machinery", "machinery": f"stale-output programs must be valid: {ref.err[-200:]} {first.err[-200:]}"}
+        if stage is not None or got.exit != ref.exit or got.out != ref.out:
+            viol.append({"sig": {"kind": "stale-output", "what": what},
+                         "what": f"revision {b} after revision {a} (earlier {what} outputs present): a fresh directory prints {ref.out!r}; here stage "
+                                 f"{stage or 'execute'} gives {got.out[-200:]!r} exit {got.exit} ({got.cls}) {got.err[-200:]}",
+                         "detail": {"files": {"earlier/x.ms": A["x.ms"], "x.ms": B["x.ms"]}, "fresh": ref.brief(), "stale": got.brief()}})
+        return {"outcome": "stale-ok" + ("-DIFF" if viol else ""), "viol": viol, "nontrivial": True, "tags": ["stale"]}
+
     def run_case(self, case):
         if case[0] == "op":
             return self.run_op(case)
+        if case[0] == "stale":
+            return self.run_stale(case)
         d = driver.fresh_dir()
         expected = None
         if case[0] == "str":
